@@ -200,8 +200,9 @@ pub fn first_divergence(obs: &[El], exp: &[ExpEl], info: &SpecInfo) -> Option<Di
                     if oe.ms.byte != ee.ms.byte {
                         if after_failure {
                             add(&mut props, "C08");
+                        } else {
+                            add(&mut props, "C10");
                         }
-                        add(&mut props, "C10");
                         what = "match start (accumulated span) differs";
                     } else if oe.ms != ee.ms || oe.me != ee.me {
                         add(&mut props, "C06");
@@ -214,9 +215,10 @@ pub fn first_divergence(obs: &[El], exp: &[ExpEl], info: &SpecInfo) -> Option<Di
                         add(&mut props, "C06");
                         what = "match_() text differs";
                     } else if oe.cnt != ee.cnt {
-                        add(&mut props, "C10");
                         if after_failure {
                             add(&mut props, "C08");
+                        } else {
+                            add(&mut props, "C10");
                         }
                         what = "user state (action counter) differs";
                     } else {
@@ -283,9 +285,10 @@ pub fn first_divergence(obs: &[El], exp: &[ExpEl], info: &SpecInfo) -> Option<Di
                 }
             },
             (Some(El::End), Some(_)) | (Some(_), Some(El::End)) | (None, Some(El::End)) | (Some(El::End), None) => {
-                add(&mut props, "C05");
                 if after_failure {
                     add(&mut props, "C08");
+                } else {
+                    add(&mut props, "C05");
                 }
                 what = "stream ends at a different point";
             }
